@@ -13,6 +13,23 @@
 (* confirmations) or for the spend of an outpoint.  Heights are relative   *)
 (* to the notifier's start height (0 = start, first block = 1).            *)
 (*                                                                         *)
+(* Registration kinds.  What the notifier keys its state by is the REQUEST *)
+(* (ConfRequest / SpendRequest), and one transaction / one output can be   *)
+(* watched through several requests at once, each with its own clients,    *)
+(* cached details, rescan status and reorg bookkeeping:                    *)
+(*   conf request  c in 1..2*NTx :  tx CTx(c), kind CKind(c)               *)
+(*        0 = {txid, script}   1 = {zero txid, script} (script only)       *)
+(*   spend request s in 1..3*NOuts : outpoint SOut(s), kind SKind(s)       *)
+(*        0 = {outpoint, script}   1 = {outpoint, zero taproot script}     *)
+(*        2 = {zero outpoint, script} (script only)                        *)
+(* (request ids 1..NTx / 1..NOuts are the kind-0 requests, so a            *)
+(* configuration that names only those is the one-kind model).  filterTx   *)
+(* looks every kind up independently for every input / output of a block;  *)
+(* every request is judged on its own (own Spend / Reorg / renewed Spend   *)
+(* sequence, own hint).  The spend-hint cache is keyed by the outpoint     *)
+(* when there is one, so the kinds 0 and 1 of one outpoint share a hint    *)
+(* entry (SKey); all other requests have their own.                        *)
+(*                                                                         *)
 (* The code part (chain .. panic) is structured as the implementation: one *)
 (* action per method that takes the notifier's mutex; Connect is           *)
 (* ConnectTip followed by NotifyHeight as every backend calls them.        *)
@@ -29,8 +46,8 @@ EXTENDS Integers, Sequences, FiniteSets, TLC
 
 CONSTANTS NOuts,         \* number of outpoints
           Incl,          \* block contents that may be connected (set of sequences over 1..NOuts)
-          ConfTargets,   \* transactions clients register confirmations for (subset of 1..2*NOuts)
-          SpendTargets,  \* outpoints clients register spends for (subset of 1..NOuts)
+          ConfTargets,   \* conf requests clients register (subset of 1..4*NOuts; 1..2*NOuts = by txid)
+          SpendTargets,  \* spend requests clients register (subset of 1..3*NOuts; 1..NOuts = by outpoint+script)
           Safety,        \* reorgSafetyLimit (constructor argument of the real TxNotifier)
           MaxConfs,      \* numConfs in 1..MaxConfs (<= Safety)
           MaxLen,        \* bound on the chain length
@@ -50,20 +67,28 @@ Outs   == 1..NOuts
 RegIds == 1..MaxRegs
 OutOf(t) == (t + 1) \div 2
 VarOf(t) == IF t % 2 = 1 THEN 1 ELSE 2
+\* requests -> what they watch, their kind, their hint-cache key
+NTx      == 2 * NOuts
+CTx(c)   == ((c - 1) % NTx) + 1
+CKind(c) == (c - 1) \div NTx
+SOut(s)  == ((s - 1) % NOuts) + 1
+SKind(s) == (s - 1) \div NOuts
+SKey(s)  == IF SKind(s) = 1 THEN s - NOuts ELSE s
+HKeys    == {SKey(s) : s \in SpendTargets}
 
 VARIABLES
   \* --- the chain (truth) and the notifier's view of it
   chain,       \* sequence of [id, inc]; currentHeight = Len(chain)
   reorgDepth,  \* TxNotifier.reorgDepth
   \* --- TxNotifier state
-  csets,       \* confNotifications: tx -> [ex, rs, h, b]   (rescanStatus, details.BlockHeight/-Hash; h = 0: no details)
-  ssets,       \* spendNotifications: outpoint -> [ex, rs, h, v] (details.SpendingHeight / spender variant)
+  csets,       \* confNotifications: conf request -> [ex, rs, h, b]   (rescanStatus, details.BlockHeight/-Hash; h = 0: no details)
+  ssets,       \* spendNotifications: spend request -> [ex, rs, h, v] (details.SpendingHeight / spender variant)
   regs,        \* the ConfNtfn/SpendNtfn objects: id -> [k, t, n, disp, st]
   byConf,      \* ntfnsByConfirmHeight   : set of <<height, reg>>
-  byInit,      \* confsByInitialHeight   : set of <<height, tx>>
-  spBy,        \* spendsByHeight         : set of <<height, outpoint>>
-  chint,       \* ConfirmHintCache (persistent): tx -> height, -1 = no entry
-  shint,       \* SpendHintCache   (persistent): outpoint -> height, -1 = no entry
+  byInit,      \* confsByInitialHeight   : set of <<height, conf request>>
+  spBy,        \* spendsByHeight         : set of <<height, spend request>>
+  chint,       \* ConfirmHintCache (persistent): conf request -> height, -1 = no entry
+  shint,       \* SpendHintCache   (persistent): hint key (SKey) -> height, -1 = no entry
   panic,       \* the real code would dereference nil / send on a closed channel
   \* --- environment
   nextBlk,     \* next fresh block id
@@ -92,9 +117,11 @@ Quiet == [i \in RegIds |-> NoEv]
 NoAt  == [h |-> 0, b |-> 0]
 
 \* truth on a chain c
-ConfAtIn(c, t) == LET S == {h \in 1..Len(c) : c[h].inc[OutOf(t)] = VarOf(t)} IN
+\* (t a conf request, o a spend request or - the kind-0 request - an outpoint)
+Hits(inc, t) == inc[OutOf(CTx(t))] = VarOf(CTx(t))
+ConfAtIn(c, t) == LET S == {h \in 1..Len(c) : Hits(c[h].inc, t)} IN
                   IF S = {} THEN 0 ELSE CHOOSE h \in S : TRUE
-SpentAtIn(c, o) == LET S == {h \in 1..Len(c) : c[h].inc[o] # 0} IN
+SpentAtIn(c, o) == LET S == {h \in 1..Len(c) : c[h].inc[SOut(o)] # 0} IN
                    IF S = {} THEN 0 ELSE CHOOSE h \in S : TRUE
 ConfAt(t)  == ConfAtIn(chain, t)
 SpentAt(o) == SpentAtIn(chain, o)
@@ -110,7 +137,7 @@ Init ==
   /\ regs = [i \in RegIds |-> NoReg]
   /\ byConf = {} /\ byInit = {} /\ spBy = {}
   /\ chint = [t \in ConfTargets |-> -1]
-  /\ shint = [o \in SpendTargets |-> -1]
+  /\ shint = [o \in HKeys |-> -1]
   /\ panic = FALSE
   /\ nextBlk = 1 /\ maxTip = 0
   /\ hc = [t \in ConfTargets |-> NoR]
@@ -197,7 +224,7 @@ RegisterSpend(i, o, hint) ==
   /\ hint \in 0..(Tip + 1) /\ (SpentAt(o) # 0 => hint <= SpentAt(o))
   /\ LET T     == Tip
          ss1   == IF ssets[o].ex THEN ssets[o] ELSE [NoSS EXCEPT !.ex = TRUE]
-         start == Max(hint, shint[o])
+         start == Max(hint, shint[SKey(o)])
          rg1   == [regs EXCEPT ![i] = [k |-> "spend", t |-> o, n |-> 0, disp |-> FALSE, st |-> "live"]]
      IN
      CASE ss1.rs = "done" /\ ss1.h # 0 ->
@@ -291,13 +318,13 @@ HistSpend(o) ==
      ELSE IF ~found THEN
           /\ err' = 0 /\ out' = Quiet
           /\ ssets' = [ssets EXCEPT ![o].rs = "done"]
-          /\ shint' = [shint EXCEPT ![o] = T]
+          /\ shint' = [shint EXCEPT ![SKey(o)] = T]
           /\ UNCHANGED <<regs, spBy>>
-     ELSE LET v == chain[at].inc[o]
+     ELSE LET v == chain[at].inc[SOut(o)]
               now == DSNow(regs, S) IN
           /\ err' = 0
           /\ ssets' = [ssets EXCEPT ![o] = [ex |-> TRUE, rs |-> "done", h |-> at, v |-> v]]
-          /\ shint' = [shint EXCEPT ![o] = at]
+          /\ shint' = [shint EXCEPT ![SKey(o)] = at]
           /\ regs' = [j \in RegIds |-> IF j \in now THEN [regs[j] EXCEPT !.disp = TRUE] ELSE regs[j]]
           /\ spBy' = spBy \cup (IF Repaired THEN (IF at + Safety > T THEN {<<at, o>>} ELSE {})
                                              ELSE DSBy(regs, S, at, o, T))
@@ -314,7 +341,7 @@ HistSpend(o) ==
 (* marked complete, nothing is cached, queued or committed as a hint.         *)
 HistConfAhead(t) ==
   /\ hc[t] # NoR
-  /\ ConfAt(t) = 0 /\ SpentAt(OutOf(t)) = 0      \* the tx could be in the next block
+  /\ ConfAt(t) = 0 /\ SpentAt(OutOf(CTx(t))) = 0      \* the tx could be in the next block
   /\ hc' = [hc EXCEPT ![t] = NoR]
   /\ IF ~csets[t].ex THEN err' = 1 /\ UNCHANGED csets
      ELSE IF csets[t].h # 0 THEN err' = 0 /\ UNCHANGED csets
@@ -339,24 +366,26 @@ UsedIds == {chain[h].id : h \in 1..Len(chain)} \cup {csets[t].b : t \in ConfTarg
            \cup {toldAt[i].b : i \in RegIds}
 FreshId == CHOOSE k \in 1..(Cardinality(UsedIds) + 1) : k \notin UsedIds /\ \A j \in 1..(k - 1) : j \in UsedIds
 
-(* ConnectTip(block, H) ; NotifyHeight(H) *)
-Connect(inc) ==
-  /\ Tip < MaxLen /\ (CanonIds \/ nextBlk <= MaxBlocks)
-  /\ inc \in Incl
-  /\ \A o \in Outs : inc[o] # 0 => SpentAt(o) = 0
+(* ConnectTip(block, H) ; NotifyHeight(H) for the block [blk, inc]: the    *)
+(* code and observation part (who supplies the block - the environment of  *)
+(* this module or the catch-up layer of CatchUp.tla - is the caller's).    *)
+\* a historical answer arrives before its request matures (O1 excluded)
+O1Guard ==
+  LET m == Tip + 1 - Safety IN
+  /\ \A t \in ConfTargets : hc[t] # NoR => <<m, t>> \notin byInit
+  /\ \A o \in SpendTargets : hs[o] # NoR => <<m, o>> \notin spBy
+
+ConnectBlk(inc, blk) ==
   /\ LET H == Tip + 1
          m == H - Safety
-         blk == IF CanonIds THEN FreshId ELSE nextBlk
      IN
-     \* a historical answer arrives before its request matures (O1 excluded)
-     /\ \A t \in ConfTargets : hc[t] # NoR => <<m, t>> \notin byInit
-     /\ \A o \in SpendTargets : hs[o] # NoR => <<m, o>> \notin spBy
      /\ LET \* --- ConnectTip: filterTx -> handleSpendDetailsAtTip / handleConfDetailsAtTip
-            hitS == {o \in SpendTargets : inc[o] # 0 /\ ssets[o].ex}
+            \*     (every registered request that the input / output fulfils, of whatever kind)
+            hitS == {o \in SpendTargets : inc[SOut(o)] # 0 /\ ssets[o].ex}
             ss1  == [o \in SpendTargets |-> IF o \in hitS
-                        THEN [ex |-> TRUE, rs |-> "done", h |-> H, v |-> inc[o]] ELSE ssets[o]]
+                        THEN [ex |-> TRUE, rs |-> "done", h |-> H, v |-> inc[SOut(o)]] ELSE ssets[o]]
             sb1  == spBy \cup {<<H, o>> : o \in hitS}
-            hitC == {t \in ConfTargets : inc[OutOf(t)] = VarOf(t) /\ csets[t].ex /\ csets[t].h = 0}
+            hitC == {t \in ConfTargets : Hits(inc, t) /\ csets[t].ex /\ csets[t].h = 0}
             cs1  == [t \in ConfTargets |-> IF t \in hitC
                         THEN [ex |-> TRUE, rs |-> "done", h |-> H, b |-> blk] ELSE csets[t]]
             bc1  == byConf \cup {<<H + regs[i].n - 1, i>> :
@@ -366,9 +395,10 @@ Connect(inc) ==
             ch1  == [t \in ConfTargets |->
                        IF (cs1[t].ex /\ cs1[t].rs = "done" /\ cs1[t].h = 0) \/ <<H, t>> \in bi1
                        THEN H ELSE chint[t]]
-            sh1  == [o \in SpendTargets |->
-                       IF (ss1[o].ex /\ ss1[o].rs = "done" /\ ss1[o].h = 0) \/ <<H, o>> \in sb1
-                       THEN H ELSE shint[o]]
+            sh1  == [k \in HKeys |->
+                       IF \E o \in SpendTargets : SKey(o) = k /\
+                            ((ss1[o].ex /\ ss1[o].rs = "done" /\ ss1[o].h = 0) \/ <<H, o>> \in sb1)
+                       THEN H ELSE shint[k]]
             \* --- requests included Safety blocks ago are mature: Done, forget them
             matC == {t \in ConfTargets : <<m, t>> \in bi1}
             matS == {o \in SpendTargets : <<m, o>> \in sb1}
@@ -406,11 +436,19 @@ Connect(inc) ==
                       sh    |-> IF i \in spNow THEN ss2[rg2[i].t].h ELSE -1,
                       sv    |-> IF i \in spNow THEN ss2[rg2[i].t].v ELSE -1,
                       reorg |-> 0]]
-        /\ nextBlk' = IF CanonIds THEN nextBlk ELSE nextBlk + 1
-        /\ maxTip' = Max(maxTip, H)
   /\ hd' = NoR /\ err' = 0
-  /\ UNCHANGED <<hc, hs>>
   /\ Ghost
+
+(* the environment of this module connects a fresh block of any admissible content *)
+Connect(inc) ==
+  /\ Tip < MaxLen /\ (CanonIds \/ nextBlk <= MaxBlocks)
+  /\ inc \in Incl
+  /\ \A o \in Outs : inc[o] # 0 => SpentAt(o) = 0
+  /\ O1Guard
+  /\ ConnectBlk(inc, IF CanonIds THEN FreshId ELSE nextBlk)
+  /\ nextBlk' = IF CanonIds THEN nextBlk ELSE nextBlk + 1
+  /\ maxTip' = Max(maxTip, Tip + 1)
+  /\ UNCHANGED <<hc, hs>>
 
 (* DisconnectTip(H).  Only blocks that are not yet Safety deep below the    *)
 (* highest tip seen may be disconnected (the reorg safety assumption).      *)
@@ -424,9 +462,10 @@ Disconnect ==
          ch1 == [t \in ConfTargets |->
                    IF (csets[t].ex /\ csets[t].rs = "done" /\ csets[t].h = 0) \/ <<H, t>> \in byInit
                    THEN T1 ELSE chint[t]]
-         sh1 == [o \in SpendTargets |->
-                   IF (ssets[o].ex /\ ssets[o].rs = "done" /\ ssets[o].h = 0) \/ <<H, o>> \in spBy
-                   THEN T1 ELSE shint[o]]
+         sh1 == [k \in HKeys |->
+                   IF \E o \in SpendTargets : SKey(o) = k /\
+                        ((ssets[o].ex /\ ssets[o].rs = "done" /\ ssets[o].h = 0) \/ <<H, o>> \in spBy)
+                   THEN T1 ELSE shint[k]]
          reC == {t \in ConfTargets : <<H, t>> \in byInit}
          reS == {o \in SpendTargets : <<H, o>> \in spBy}
          negR == {i \in RegIds : LiveIn(regs, i, "conf") /\ regs[i].t \in reC}
@@ -494,7 +533,7 @@ ConfTruthful == \A i \in RegIds : out'[i].ch # -1 =>
 SpendTruthful == \A i \in RegIds : out'[i].sh # -1 =>
   /\ regs'[i].k = "spend"
   /\ SpentAtIn(chain', regs'[i].t) = out'[i].sh
-  /\ chain'[out'[i].sh].inc[regs'[i].t] = out'[i].sv
+  /\ chain'[out'[i].sh].inc[SOut(regs'[i].t)] = out'[i].sv
   /\ (~told[i] \/ out'[i].reorg # 0)
 
 \* (c) a client that was told and has not been sent a reorg notice is right about the block:
@@ -525,7 +564,7 @@ DoneOnlyDeep == \A i \in RegIds : out'[i].done # 0 =>
 \*     the active chain (the tip while it is not)
 ConfHintSafe  == \A t \in ConfTargets : chint[t] # -1 =>
                     chint[t] <= (IF ConfAt(t) # 0 THEN ConfAt(t) ELSE Tip)
-SpendHintSafe == \A o \in SpendTargets : shint[o] # -1 =>
+SpendHintSafe == \A o \in HKeys : shint[o] # -1 =>
                     shint[o] <= (IF SpentAt(o) # 0 THEN SpentAt(o) ELSE Tip)
 
 NoPanic == ~panic
